@@ -35,7 +35,10 @@ def fmt_impls(prog, adt_path):
 def serde_fns(prog, adt_path):
     """the derived Deserialize machinery of a wire struct (reached through bincode, outside the visible call graph)"""
     key = "Deserialize<'de> for %s>" % adt_path
-    return [p for p in prog.fns if key in p]
+    # bincode decodes a struct as a fixed-length tuple: deserialize_struct -> deserialize_tuple -> Visitor::visit_seq;
+    # visit_map and the field-identifier visitor are never invoked by it (trusted base, bincode 1.3 de/mod.rs)
+    return [p for p in prog.fns if key in p and not p.endswith("::visit_map") and "__FieldVisitor" not in p and "__Field " not in p
+            and "for __Field" not in p]
 
 
 def scope(prog, entries, extra_edges=True):
@@ -342,9 +345,7 @@ def _delta_ms(an, st, d):
 def pre_date_plus_delta(an, st, t, args):
     base, d = args[0], args[1]
     r = _delta_ms(an, st, d)
-    const_date = base[0] in ("vfld", "call", "ret") or True
     # the base must be a calendar date built from in-range constants (from_ymd_opt with constant arguments)
-    known = an.eng.const_dates.get(base) if hasattr(an.eng, "const_dates") else None
     ok_base = is_const_date(an, st, base)
     if ok_base and -DATE_DELTA_MS <= r[0] and r[1] <= DATE_DELTA_MS:
         return True, "constant base date + delta in %s ms" % (r,)
@@ -354,10 +355,9 @@ def pre_date_plus_delta(an, st, t, args):
 def is_const_date(an, st, base):
     """base is `from_ymd_opt(c1, c2, c3)?` with constant year in 1000..=3000"""
     b = base
-    while b[0] in ("vfld", "down"):
+    while b[0] in ("vfld", "down", "okval", "someval", "try"):
         b = b[1]
-    dates = getattr(an, "date_calls", None)
-    if b[0] == "ret":
+    if b[0] == "ret" and b[1] == an.fn.path:
         blk = an.fn.blocks[b[2]]
         t = blk["term"]
         if t["t"] == "call" and callee_of(t).endswith("NaiveDate::from_ymd_opt"):
